@@ -1471,12 +1471,7 @@ class Cache:
         :raises Timeout: if database timeout occurs
 
         """
-        if prefix is None:
-            min_key = 0
-            max_key = 999999999999999
-        else:
-            min_key = prefix + '-000000000000000'
-            max_key = prefix + '-999999999999999'
+        min_key, max_key, same_prefix = self._queue_range(prefix)
 
         now = time.time()
         raw = True
@@ -1486,9 +1481,9 @@ class Cache:
         order = {'back': 'DESC', 'front': 'ASC'}
         select = (
             'SELECT key FROM Cache'
-            ' WHERE ? < key AND key < ? AND raw = ?'
+            ' WHERE ? < key AND key < ? AND raw = ?%s'
             ' ORDER BY key %s LIMIT 1'
-        ) % order[side]
+        ) % (same_prefix, order[side])
 
         with self._transact(retry, filename) as (sql, cleanup):
             rows = sql(select, (min_key, max_key, raw)).fetchall()
@@ -1518,6 +1513,18 @@ class Cache:
             self._cull(now, sql, cleanup)
 
             return db_key
+
+    @staticmethod
+    def _queue_range(prefix):
+        # Keys of one queue are "prefix-" followed by exactly 15 digits. The
+        # length test keeps out keys of longer prefixes such as "prefix-5".
+        if prefix is None:
+            return 0, 999999999999999, ''
+        length = len(prefix.encode('utf-8')) + 16
+        same_prefix = ' AND LENGTH(CAST(key AS BLOB)) = %d' % length
+        min_key = prefix + '-000000000000000'
+        max_key = prefix + '-999999999999999'
+        return min_key, max_key, same_prefix
 
     def pull(
         self,
@@ -1581,19 +1588,14 @@ class Cache:
 
         """
         # Caution: Nearly identical code exists in Cache.peek
-        if prefix is None:
-            min_key = 0
-            max_key = 999999999999999
-        else:
-            min_key = prefix + '-000000000000000'
-            max_key = prefix + '-999999999999999'
+        min_key, max_key, same_prefix = self._queue_range(prefix)
 
         order = {'front': 'ASC', 'back': 'DESC'}
         select = (
             'SELECT rowid, key, expire_time, tag, mode, filename, value'
-            ' FROM Cache WHERE ? < key AND key < ? AND raw = 1'
+            ' FROM Cache WHERE ? < key AND key < ? AND raw = 1%s'
             ' ORDER BY key %s LIMIT 1'
-        ) % order[side]
+        ) % (same_prefix, order[side])
 
         if expire_time and tag:
             default = default, None, None
@@ -1696,19 +1698,14 @@ class Cache:
 
         """
         # Caution: Nearly identical code exists in Cache.pull
-        if prefix is None:
-            min_key = 0
-            max_key = 999999999999999
-        else:
-            min_key = prefix + '-000000000000000'
-            max_key = prefix + '-999999999999999'
+        min_key, max_key, same_prefix = self._queue_range(prefix)
 
         order = {'front': 'ASC', 'back': 'DESC'}
         select = (
             'SELECT rowid, key, expire_time, tag, mode, filename, value'
-            ' FROM Cache WHERE ? < key AND key < ? AND raw = 1'
+            ' FROM Cache WHERE ? < key AND key < ? AND raw = 1%s'
             ' ORDER BY key %s LIMIT 1'
-        ) % order[side]
+        ) % (same_prefix, order[side])
 
         if expire_time and tag:
             default = default, None, None
